@@ -9,6 +9,7 @@ import (
 	"context"
 	"database/sql"
 	"database/sql/driver"
+	"encoding/base64"
 	"encoding/json"
 	"errors"
 	"fmt"
@@ -52,7 +53,8 @@ type Result struct {
 	ProfShape int `json:"prof_shape,omitempty"`
 	// TraceShape selects what tempo_traces holds: 0 spans as the writer stores them; 1 some rows with an empty payload
 	// (the ndjson Zipkin decoder before fix abfd578 stored such rows); 2 payload types the reader does not know;
-	// 3 payloads that are neither JSON nor a protobuf span; 4 Zipkin spans whose parentId is not a 64-bit hex id
+	// 3 payloads that are neither JSON nor a protobuf span; 4 Zipkin spans whose parentId is not a 64-bit hex id;
+	// 5 OTLP spans stored as JSON with integer attributes beyond 2^53
 	TraceShape int `json:"trace_shape,omitempty"`
 	// NullAtRow k>0: the k-th row (1-based) carries a NULL: the value of a single-column statement (label names, values,
 	// tags), the last text column of a wider one
@@ -68,6 +70,9 @@ type Row struct {
 	Line   string
 	Value  float64
 }
+
+// BigInts are the values of the attribute "big" of JSON-stored OTLP spans (TraceShape 5), by span index.
+var BigInts = []string{"9007199254740993", "1734436231582466049", "9223372036854775807", "-9007199254740995", "7"}
 
 // Rows materialises the result set.
 func (r *Result) Rows() []Row {
@@ -585,6 +590,11 @@ func ValueFor(col, sqlText string, row Row, idx int, ncols int, res *Result) dri
 					parent = `"parentId":"` + []string{"000102030405060708090a0b0c0d0e0f", "abc", "zzzzzzzzzzzzzzzz", "0000000000000000000000000000000000a1"}[(idx/2)%4] + `",`
 				}
 				return fmt.Sprintf(`{"traceId":"%x","id":"%x",%s"name":"op%d","timestamp":%d,"duration":5,"localEndpoint":{"serviceName":"svc"},"tags":{"a":"b","n":"%d"},"annotations":[{"timestamp":1,"value":"e"}]}`, tid, sid, parent, idx, row.TsNs/1000, idx)
+			}
+			if res.TraceShape == 5 {
+				// an OTLP span stored as JSON (what the Node.js writer stored), with integer attributes beyond 2^53
+				return fmt.Sprintf(`{"traceId":%q,"spanId":%q,"name":"op%d","kind":1,"startTimeUnixNano":"%d","endTimeUnixNano":"%d","attributes":[{"key":"service.name","value":{"stringValue":"svc"}},{"key":"big","value":{"intValue":"%s"}},{"key":"small","value":{"intValue":"42"}}]}`,
+					base64.StdEncoding.EncodeToString([]byte(tid)), base64.StdEncoding.EncodeToString([]byte(sid)), idx, row.TsNs, row.TsNs+5000, BigInts[idx%len(BigInts)])
 			}
 			sp := &otlpTrace.Span{TraceId: []byte(tid), SpanId: []byte(sid), Name: fmt.Sprintf("op%d", idx), StartTimeUnixNano: uint64(row.TsNs), EndTimeUnixNano: uint64(row.TsNs + 5000),
 				Attributes: []*otlpCommon.KeyValue{{Key: "service.name", Value: &otlpCommon.AnyValue{Value: &otlpCommon.AnyValue_StringValue{StringValue: "svc"}}}}}
